@@ -18,6 +18,10 @@
 (* between redirect and callback, the returned state, the shape of the     *)
 (* callback query, how much time passes.  The harness maps every class to  *)
 (* concrete strings / byte mutations.                                      *)
+(* The operator's side varies too: one allowlist entry is spelled in every *)
+(* way an operator may write an origin (cfg.escheme / eport / eform) and   *)
+(* the "E.*" return URLs vary scheme, host and port against it; the        *)
+(* allowlist is the verbatim map SetOAuthPkce builds (cfgs named _origin). *)
 (*                                                                         *)
 (* Actions are written operationally, branch by branch as the handlers     *)
 (* are; what C27 promises is stated declaratively at the bottom, over the  *)
@@ -44,7 +48,7 @@ CONSTANTS
     Mode, Depth
 
 VARIABLES
-    cfg,      \* [prefix, idtoken, idp] fixed per behaviour
+    cfg,      \* [prefix, idtoken, idp, escheme, eport, eform] fixed per behaviour
     phase,    \* "idle" | "redirected" | "done"
     sess,     \* what pkceRedirectToOAuth packed into the session cookie
     hist
@@ -59,11 +63,30 @@ MaxAge == 600      \* sessionMaxAge, seconds
 (*   idtoken  use_id_token_as_bearer  (bearer = id_token, not access_token)*)
 (*   idp      "up" | "down" (discovery fails) | "token_error" (token       *)
 (*            endpoint answers with an error / without a token)            *)
-AllCfgs == [prefix : {"", "/vgi"}, idtoken : BOOLEAN, idp : {"up", "down", "token_error"}]
-BaseCfg == [prefix |-> "/vgi", idtoken |-> FALSE, idp |-> "up"]
-\* the baseline and every configuration differing from it in one component
+(* The operator's allowlist holds one more entry, for the frontend host E, *)
+(* and HOW that entry is spelled is configuration too:                     *)
+(*   escheme  "https" | "http"                                             *)
+(*   eport    "none" (no port) | "default" (the scheme's default port      *)
+(*            written out: https://E:443, http://E:80) | "other" (a        *)
+(*            non-default port N)                                          *)
+(*   eform    "bare" | "upper_scheme" (HTTPS://e) | "upper_host"           *)
+(*            (https://E.EXAMPLE) | "slash" (trailing /) | "path" (/app)   *)
+ESchemes == {"https", "http"}
+EPorts   == {"none", "default", "other"}
+EForms   == {"bare", "upper_scheme", "upper_host", "slash", "path"}
+AllCfgs == [prefix : {"", "/vgi"}, idtoken : BOOLEAN, idp : {"up", "down", "token_error"},
+            escheme : ESchemes, eport : EPorts, eform : EForms]
+BaseCfg == [prefix |-> "/vgi", idtoken |-> FALSE, idp |-> "up",
+            escheme |-> "https", eport |-> "none", eform |-> "bare"]
 \* number of components in which a configuration differs from the baseline
-CfgDev(c) == Cardinality({k \in {"prefix", "idtoken", "idp"} : c[k] # BaseCfg[k]})
+CfgDev(c) == Cardinality({k \in DOMAIN BaseCfg : c[k] # BaseCfg[k]})
+BaseEntry(c) == c.escheme = BaseCfg.escheme /\ c.eport = BaseCfg.eport /\ c.eform = BaseCfg.eform
+\* configuration sets for the cfg files: every server configuration with the
+\* baseline spelling of the E entry / every spelling of the E entry on the
+\* baseline server / every spelling on every server whose IdP works
+MainCfgs       == {c \in AllCfgs : BaseEntry(c)}
+OriginCfgs     == {c \in AllCfgs : c.prefix = BaseCfg.prefix /\ c.idtoken = BaseCfg.idtoken /\ c.idp = "up"}
+OriginCfgsWide == {c \in AllCfgs : c.idp = "up"}
 
 --------------------------------------------------------------------------
 (* The allowlist of return origins the harness configures, abstractly.     *)
@@ -125,6 +148,58 @@ AllRt == {"none", "entry", "entry_default", "entry_anyport", "entry_frag", "port
           "localhost_lookalike", "backslash_evil", "encoded_evil", "ctrl_evil",
           "toolong_entry", "toolong_evil"}
 
+(* Return URLs aimed at the frontend host E, whose allowlist entry the     *)
+(* operator spelled as cfg.escheme / cfg.eport / cfg.eform says.  Scheme,  *)
+(* host and port of the return URL vary independently:                     *)
+(*   scheme  "https" | "http"                                              *)
+(*   host    "lower" (e.example) | "upper" (E.EXAMPLE) | "look" (another   *)
+(*           host: sub.e.example, e.example.evil, xe.example ...)          *)
+(*   port    "none" | "default" (the URL scheme's default port written     *)
+(*           out) | "other" (the non-default port N an eport = "other"     *)
+(*           entry names) | "third" (any port that is neither)             *)
+(* The class name is "E.<scheme>.<host>.<port>"; the harness splits it.    *)
+ERtSet == [scheme : ESchemes, host : {"lower", "upper", "look"},
+           port : {"none", "default", "other", "third"}]
+ERtName(r) == "E." \o r.scheme \o "." \o r.host \o "." \o r.port
+ENames == {ERtName(r) : r \in ERtSet}
+ERtOf(c) == CHOOSE r \in ERtSet : ERtName(r) = c
+OriginRt == {"none"} \cup ENames          \* RtClasses of the *_origin cfgs
+
+\* port tokens: "" no port, "443" / "80", "N" the entry's non-default port,
+\* "M" some other port
+PortTok(scheme, p) ==
+    CASE p = "none" -> "" [] p = "default" -> (IF scheme = "https" THEN "443" ELSE "80")
+      [] p = "other" -> "N" [] p = "third" -> "M"
+HostTok(h) == CASE h = "lower" -> "e" [] h = "upper" -> "E" [] h = "look" -> "x"
+
+(* SetOAuthPkce stores every configured entry verbatim as a key of the     *)
+(* allowlist map; the key for E, as <<scheme, host, port, rest>>:          *)
+EntryKey ==
+    << IF cfg.eform = "upper_scheme" THEN (IF cfg.escheme = "https" THEN "HTTPS" ELSE "HTTP") ELSE cfg.escheme,
+       IF cfg.eform = "upper_host" THEN "E" ELSE "e",
+       PortTok(cfg.escheme, cfg.eport),
+       CASE cfg.eform = "slash" -> "/" [] cfg.eform = "path" -> "/app" [] OTHER -> "" >>
+
+(* validateReturnTo on such a URL: url.Parse lower-cases the scheme and    *)
+(* keeps the host as written; the map is probed with "scheme://hostname"   *)
+(* and, when the URL has a port, with "scheme://hostname:port".  (The      *)
+(* other entries are for other hosts and cannot match; E is not localhost.)*)
+EAccepts(r) ==
+    \/ <<r.scheme, HostTok(r.host), "", "">> = EntryKey
+    \/ /\ r.port # "none"
+       /\ <<r.scheme, HostTok(r.host), PortTok(r.scheme, r.port), "">> = EntryKey
+
+(* What C27 says about it: scheme and host match the entry (both compare   *)
+(* case-insensitively; a trailing slash or path does not change which      *)
+(* origin the entry names), and the port too when the entry names one - a  *)
+(* URL without a port goes to its scheme's default port.                   *)
+EAllowed(r) ==
+    /\ r.scheme = cfg.escheme
+    /\ r.host \in {"lower", "upper"}
+    /\ \/ cfg.eport = "none"
+       \/ PortTok(r.scheme, IF r.port = "none" THEN "default" ELSE r.port)
+             = PortTok(cfg.escheme, cfg.eport)
+
 (* validateReturnTo, branch by branch.                                     *)
 MatchNoPort(s, h)  == \E e \in Allow : e.port = "any" /\ e.scheme = s /\ e.host = h
 MatchPort(s, h, p) == \E e \in Allow : e.port = p /\ e.scheme = s /\ e.host = h
@@ -133,6 +208,7 @@ MatchPort(s, h, p) == \E e \in Allow : e.port = p /\ e.scheme = s /\ e.host = h
 IsLocalName(h) == h = "L"
 
 ReturnToAccepts(c) ==
+    IF c \in ENames THEN EAccepts(ERtOf(c)) ELSE
     LET r == Rt(c) IN
     IF r.len # "ok" THEN FALSE                                   \* "" or > 2048
     ELSE IF r.parse = "err" THEN FALSE                           \* url.Parse error
@@ -209,6 +285,7 @@ AllFields == {"typical", "empty", "max", "binary", "unicode", "lenlike"}
 \* a return URL a redirect may target: scheme and host match an allowlist
 \* entry (and the port too when the entry names one), or http localhost
 Allowed(c) ==
+    IF c \in ENames THEN EAllowed(ERtOf(c)) ELSE
     LET r == Rt(c) IN
     /\ r.len # "empty"
     /\ \/ \E e \in Allow : /\ e.scheme = r.bscheme /\ e.host = r.bhost
@@ -234,7 +311,7 @@ Record(step) ==
 
 \* the original URL is the page path plus the whole query string, which
 \* includes the _vgi_return_to parameter: it exceeds 2048 bytes when either does
-OrigLong(rt, q) == q = "long" \/ Rt(rt).len = "toolong"
+OrigLong(rt, q) == q = "long" \/ (rt \notin ENames /\ Rt(rt).len = "toolong")
 
 NoSess == [rt |-> "none", sub |-> "none", q |-> "none", page |-> "landing", dev |-> 0]
 
@@ -348,9 +425,12 @@ PackUnpack(fc, mut, age) ==
                        @@ Opt(MustRefuse(mut, age), [refused |-> TRUE])
                        @@ Opt(MustRoundTrip(mut, age), [roundtrip |-> TRUE])])
 
-(* validateReturnTo on its own.                                            *)
+(* validateReturnTo on its own, with an allowlist map the harness builds.  *)
+(* The E family is about the map the SERVER builds from its configuration, *)
+(* so it is exercised through the handlers only.                           *)
 CheckReturnTo(rt) ==
     /\ phase = "idle"
+    /\ rt \notin ENames
     /\ CfgDev(cfg) + 1 <= MaxDev
     /\ UNCHANGED <<cfg, sess>>
     /\ phase' = "done"
